@@ -498,9 +498,15 @@ func (w *bWorld) vexec(thread *starlark.Thread, fn *starlark.Builtin, args starl
 	}
 	// some output on the target's stdout (exercises the line writer): two lines, split oddly
 	// (the three writes split the two lines at odd places; the last line is unterminated)
-	for _, chunk := range []string{"run " + name + "\npar", "", "tial line of " + name} {
+	for i, chunk := range []string{"run " + name + "\npar", "", "tial", " line of " + name} {
 		fmt.Fprint(bStdout(thread), chunk)
 		w.logEvent("Out", "l", name, "text", chunk)
+		if i == 2 && thread.Print != nil {
+			// what print() in the body does, in the middle of an unfinished line: the text and a
+			// line break go to the same output
+			w.logEvent("Out", "l", name, "text", " <printed by "+name+">\n")
+			thread.Print(thread, " <printed by "+name+">")
+		}
 	}
 	w.mu.Lock()
 	failing := w.fail[name]
